@@ -177,11 +177,13 @@ fn cmd_run(args: &[String]) -> i32 {
     let start: u64 = arg(args, "--start").and_then(|s| s.parse().ok()).unwrap_or(0);
     let count: u64 = arg(args, "--count").and_then(|s| s.parse().ok()).unwrap_or(1000);
     let out_dir = arg(args, "--out").unwrap_or("/tmp/tzsim-out").to_string();
-    let worker: u64 = arg(args, "--worker").and_then(|s| s.parse().ok()).unwrap_or(0);
+    let worker: String = arg(args, "--worker").unwrap_or("0").to_string();
     let cold_every: u64 = arg(args, "--cold-every").and_then(|s| s.parse().ok()).unwrap_or(0);
     let recheck_every: u64 = arg(args, "--recheck-every").and_then(|s| s.parse().ok()).unwrap_or(101);
     let time_limit: f64 = arg(args, "--time-limit").and_then(|s| s.parse().ok()).unwrap_or(1e9);
     let replay_dir = arg(args, "--replays").unwrap_or("/verif/replays").to_string();
+    let dump_path = arg(args, "--dump").map(|s| s.to_string());
+    let mut dump = String::new();
     let _ = std::fs::create_dir_all(&out_dir);
     crumb::init(&format!("{out_dir}/crumb-{worker}"));
     let armed = Armed::for_prop(&prop);
@@ -199,10 +201,13 @@ fn cmd_run(args: &[String]) -> i32 {
         crumb::set(i);
         let sc = gen::generate(&prop, seed);
         let cold = cold_every > 0 && i % cold_every == 0;
-        let opts = ExecOpts { log_events: agg.samples.len() < 2 && worker == 0, cold, exe: exe.clone() };
+        let opts = ExecOpts { log_events: agg.samples.len() < 2 && (worker == "0" || worker.ends_with("-0")), cold, exe: exe.clone() };
         let out = execute(&sc, &mut corpus, armed, &opts);
         agg.evaluations += 1;
         let sd = sc.digest();
+        if dump_path.is_some() {
+            dump.push_str(&format!("{i} {sd:016x} {:016x} {:016x} {}\n", out.sched_digest, out.result_digest, out.violations.len()));
+        }
         if out.nontrivial {
             agg.nontrivial.push(sd);
         }
@@ -333,12 +338,15 @@ fn cmd_run(args: &[String]) -> i32 {
         i += 1;
     }
     crumb::done();
+    if let Some(p) = &dump_path {
+        let _ = std::fs::write(p, &dump);
+    }
     // ---- write worker results
     write_u64s(&format!("{out_dir}/nontrivial-{worker}.bin"), &agg.nontrivial);
     write_u64s(&format!("{out_dir}/interleavings-{worker}.bin"), &agg.interleavings);
     write_u64s(&format!("{out_dir}/states-{worker}.bin"), &agg.states.iter().copied().collect::<Vec<_>>());
     let mut j = String::from("{");
-    j.push_str(&format!("\"worker\":{worker},\"evaluations\":{},\"first_index\":{start},\"next_index\":{i},\"first_seed\":{},\"wall_s\":{:.3},", agg.evaluations, seed_for(&prop, verif_seed, start), t0.elapsed().as_secs_f64()));
+    j.push_str(&format!("\"worker\":\"{worker}\",\"evaluations\":{},\"first_index\":{start},\"next_index\":{i},\"first_seed\":{},\"wall_s\":{:.3},", agg.evaluations, seed_for(&prop, verif_seed, start), t0.elapsed().as_secs_f64()));
     j.push_str(&format!("\"switches\":{},\"yields\":{},\"reads\":{},\"ops\":{},\"clock_advance_ns\":{},\"foreign\":{},\"rechecks\":{},\"recheck_mismatch\":{},", agg.switches, agg.yields, agg.reads, agg.ops, agg.clock_advance_ns, agg.foreign, agg.rechecks, agg.recheck_mismatch));
     j.push_str("\"faults\":{");
     j.push_str(&agg.faults.iter().map(|(k, v)| format!("{}:{v}", jstr(k))).collect::<Vec<_>>().join(","));
